@@ -532,6 +532,27 @@ def run(ctx):
     from .packer_common import check_typedlist_pack
     check_typedlist_pack(ctx, "R1.9")
 
+    # ------------------------------------------------------------------ R1.10 decoders of flavoured types pick the class by the tag
+    ctx.rule("R1.10", "path._unpack / command._unpack build the value with the class the stored flavour tag names on every path: a return through the generic "
+                      "class (`cls(...)`, `path(...)`) lets the host platform decide and loses the POSIX/Windows distinction of the written value")
+    from ..core import expand_aliases, single_assign_aliases  # noqa: F811
+    n10 = 0
+    for q10, concrete in (("flow.record.fieldtypes.path._unpack", ("posix_path", "windows_path")), ("flow.record.fieldtypes.command._unpack", ("posix_command", "windows_command"))):
+        f10 = ctx.anchor_func(q10)
+        cp10 = func_params(f10)[0]
+        for rt in [r for r in walk_no_nested(f10) if isinstance(r, ast.Return) and r.value is not None]:
+            n10 += 1
+            v = rt.value
+            calls10 = [v] if isinstance(v, ast.Call) else ([v.body, v.orelse] if isinstance(v, ast.IfExp) else [])
+            al10 = single_assign_aliases(f10)
+            ok10 = bool(calls10) and all(isinstance(c, ast.Call) and norm(expand_aliases(c.func, al10)) in concrete or
+                                         (isinstance(c, ast.Call) and isinstance(expand_aliases(c.func, al10), ast.IfExp) and
+                                          {norm(expand_aliases(c.func, al10).body), norm(expand_aliases(c.func, al10).orelse)} <= set(concrete)) for c in calls10)
+            ctx.check(ok10, "R1.10", f"{q10.split('fieldtypes.')[1]}:return {norm(v)[:40]}", f"`return {norm(v)[:60]}` does not construct one of {concrete}: the generic class chooses the "
+                      "flavour from the reading host, not from the stored tag", rt, f"returns {concrete[0]}(...) or {concrete[1]}(...)", key=f"R1.10:{q10.split('fieldtypes.')[1]}:flavour-from-host")
+    ctx.floor("R1.10", "returns of flavoured decoders", n10, 3)
+
+
 
 def _always_leaves(stmts) -> bool:
     if not stmts:
